@@ -1,6 +1,7 @@
 import Cfdp.Model.Segments
 import Cfdp.Model.Checksum
 import Cfdp.Model.Path
+import Cfdp.Model.Codec.Pdu
 
 /-!
 Line-protocol driver: executes the model's definitions on the op lines produced by the Rust
@@ -108,11 +109,78 @@ def pathStep (toks : List String) : String :=
     | none => "panic"
   | _ => "bad-op"
 
+namespace CodecFmt
+open Cfdp.Codec Cfdp.Gen
+
+def idRepr (i : VarId) : String := s!"{i.width}:{i.val}"
+def optId : Option VarId → String
+  | none => "-"
+  | some i => idRepr i
+def respRepr (r : FsResponse) : String :=
+  s!"R[{r.action.toNat * 16 + r.status},{hex r.name1},{hex r.name2},{hex r.msg}]"
+def reqRepr (q : FsRequest) : String := s!"REQ[{q.action.toNat},{hex q.name1},{hex q.name2}]"
+def tlvRepr : Tlv → String
+  | .fsReq q => reqRepr q
+  | .fsResp p => respRepr p
+  | .msg m => s!"MSG[{hex m}]"
+  | .fho c => s!"FHO[{c.toNat}]"
+  | .flow v => s!"FL[{hex v}]"
+  | .eid i => s!"EID[{idRepr i}]"
+def headerRepr (h : Header) : String :=
+  s!"H[{h.version.toNat},{h.pduType.toNat},{h.direction.toNat},{h.mode.toNat},{h.crc.toNat},{h.large.toNat},{h.dataLen},{h.segCtrl.toNat},{h.segMeta.toNat},{idRepr h.src},{idRepr h.seq},{idRepr h.dst}]"
+def braces (xs : List String) : String := "{" ++ ";".intercalate xs ++ "}"
+def payloadRepr : Payload → String
+  | .fileData off d => s!"FD[{off},{hex d}]"
+  | .fileDataSeg rcs m off d => s!"FDS[{rcs.toNat},{hex m},{off},{hex d}]"
+  | .eof e => s!"EOF[{e.cond.toNat},{e.checksum},{e.fileSize},{optId e.fault}]"
+  | .finished f =>
+    s!"FIN[{f.cond.toNat},{f.delivery.toNat},{f.fileStatus.toNat},{braces (f.responses.map respRepr)},{optId f.fault}]"
+  | .ack a => s!"ACK[{a.directive.toNat},{a.sub.toNat},{a.cond.toNat},{a.status.toNat}]"
+  | .metadata m =>
+    s!"MD[{if m.closure then 1 else 0},{m.cksumType.toNat},{m.fileSize},{hex m.srcName},{hex m.dstName},{braces (m.options.map tlvRepr)}]"
+  | .nak n => s!"NAK[{n.scopeStart},{n.scopeEnd},{braces (n.requests.map (fun r => s!"{r.1}-{r.2}"))}]"
+  | .prompt k => s!"PROMPT[{k.toNat}]"
+  | .keepAlive g => s!"KA[{g}]"
+def pduRepr (p : Pdu) : String := headerRepr p.header ++ " " ++ payloadRepr p.payload
+
+def errName (e : Err) : String :=
+  match e with
+  | .MessageType => "MessageType" | .UnexpectedMessage => "UnexpectedMessage"
+  | .UnexpectedIdentifier => "UnexpectedIdentifier" | .InvalidCondition => "InvalidCondition"
+  | .InvalidChecksumType => "InvalidChecksumType" | .InvalidDirection => "InvalidDirection"
+  | .InvalidDirective => "InvalidDirective" | .InvalidDeliveryCode => "InvalidDeliveryCode"
+  | .InvalidState => "InvalidState" | .InvalidFileStatus => "InvalidFileStatus"
+  | .InvalidTraceControl => "InvalidTraceControl" | .InvalidTransmissionMode => "InvalidTransmissionMode"
+  | .InvalidSegmentControl => "InvalidSegmentControl" | .InvalidTransactionStatus => "InvalidTransactionStatus"
+  | .InvalidFileStoreAction => "InvalidFileStoreAction" | .InvalidFileStoreStatus => "InvalidFileStoreStatus"
+  | .InvalidFaultHandlerCode => "InvalidFaultHandlerCode" | .InvalidACKDirectiveSubType => "InvalidACKDirectiveSubType"
+  | .InvalidPrompt => "InvalidPrompt" | .InvalidVersion => "InvalidVersion" | .InvalidPDUType => "InvalidPDUType"
+  | .InvalidCRCFlag => "InvalidCRCFlag" | .InvalidFileSizeFlag => "InvalidFileSizeFlag"
+  | .InvalidSegmentMetadataFlag => "InvalidSegmentMetadataFlag" | .CRCFailure => "CRCFailure"
+  | .ReadError => "ReadError" | .UnknownIDLength => "UnknownIDLength" | .InvalidFileName => "InvalidFileName"
+  | .InvalidListingCode => "InvalidListingCode" | .panic => "PANIC"
+
+def pduAnswer (bs : Bytes) : String :=
+  match Pdu.decode bs with
+  | .ok p => s!"ok {pduRepr p} elen={p.len} re={hex p.encode}"
+  | .error .panic => "panic"
+  | .error e => "err:" ++ errName e
+end CodecFmt
+
+def codecStep (toks : List String) : String :=
+  match toks with
+  | ["pdu", h] =>
+    match unhex h with
+    | some bs => CodecFmt.pduAnswer bs
+    | none => "bad-op"
+  | _ => "bad-op"
+
 def step (st : DState) (line : String) : DState × String :=
   match (line.splitOn " ").filter (· ≠ "") with
   | "seg" :: rest => segStep st rest
   | "cksum" :: rest => (st, cksumStep rest)
   | "path" :: rest => (st, pathStep rest)
+  | "codec" :: rest => (st, codecStep rest)
   | _ => (st, "bad-op")
 
 partial def loop (h : IO.FS.Stream) (out : IO.FS.Stream) (st : DState) : IO Unit := do
